@@ -11,6 +11,7 @@
  *   weights      in the raw FSG the probabilities of the arcs leaving any state sum to one (every state of the raw
  *                graph is one choice point); for  /w1/ u | /w2/ v  with plain word sequences u != v the best
  *                probability of u is w1/(w1+w2).
+ *   history      one grammar object: build <good>, build a refused rule, build <good> again (3 rounds): same language
  *   refusal      left recursion, embedded recursion (also through groups and optionals, over every depth-1 expression),
  *                undefined rule, no public rule: no FSG is produced; right (tail) recursion -- direct, through a group or
  *                an optional, mutual -- compiles to the expected language.  <VOID>: refusal or the exact language.
@@ -193,6 +194,36 @@ static void grammar_case(const char *body, lang_t ref, int expect)
     jsgf_grammar_free(j);
 }
 
+/* One grammar object used for several builds: a rule that compiles, then a rule that is refused after it has emitted
+ * links, then the first rule again -- every build must give the language of the rule it was asked for. */
+static void history_case(const char *expr, lang_t ref)
+{
+    char text[900], body[500];
+    jsgf_t *j; jsgf_rule_t *good, *bad; fsg_model_t *f; int round;
+    snprintf(body, sizeof body, "public <good> = %s;\npublic <bad> = a b ( a <bad> ) b | b a <undefinedrule>;", expr);
+    snprintf(text, sizeof text, HDR "%s\n", body);
+    cases++; distinct++;
+    j = jsgf_parse_string(text, NULL);
+    if (!j) { failf("two-rule grammar of the family is not parsed", body); return; }
+    good = jsgf_get_rule(j, "g.good"); bad = jsgf_get_rule(j, "g.bad");
+    if (!good || !bad) { failf("rules of the two-rule grammar are not found", body); jsgf_grammar_free(j); return; }
+    for (round = 0; round < 3; round++) {
+        lang_t got = 0;
+        f = jsgf_build_fsg(j, good, lm, 1.0f);
+        if (!f) { failf("a representable rule is refused on a grammar object that was used before", body); break; }
+        if (fsg_language(f, &got, NULL) == 0 && got != ref) {
+            char w[900]; snprintf(w, sizeof w, "%s (build number %d of <good> on the same grammar object)", body, round + 1);
+            failf("a later build on the same grammar object accepts a different language", w);
+            fsg_model_free(f);
+            break;
+        }
+        fsg_model_free(f);
+        f = round == 1 ? jsgf_build_fsg_raw(j, bad, lm, 1.0f) : jsgf_build_fsg(j, bad, lm, 1.0f);
+        if (f) { failf("an unrepresentable rule is compiled", body); fsg_model_free(f); break; }
+    }
+    jsgf_grammar_free(j);
+}
+
 /* ---------- expression enumeration ---------- */
 typedef struct { char text[120]; lang_t lang; int has_void; } expr_t;
 #define MAXE 400
@@ -328,6 +359,8 @@ int main(int argc, char **argv)
             snprintf(body, sizeof body, "public <s> = [ <s> ] ( %s ) | b;", d1[i].text); grammar_case(body, 0, 1);
             snprintf(body, sizeof body, "public <s> = ( <s> | a ) ( %s );", d1[i].text); grammar_case(body, 0, 1);
         }
+        for (i = 0; i < n0; i++) if (!d0[i].has_void) history_case(d0[i].text, d0[i].lang);
+        for (i = 0; i < n1; i++) if (!d1[i].has_void) history_case(d1[i].text, d1[i].lang);
         if (nsample < 4) snprintf(sample[nsample++], sizeof sample[0], "public <s> = ( a <s> ) b | b;  (embedded recursion through a group: must be refused)");
     }
     for (i = 0; i < nsample; i++) printf("SAMPLE %s\n", sample[i]);
